@@ -198,6 +198,12 @@ type world struct {
 	quietSeq   uint64         // quiescence observed
 	quietNs    int64
 	dump       map[string]dumpRec // "typ/name" -> cache at quiescence
+	// explainedBy: deviations (relax bits) under which the reference model
+	// explains the run although the strict model does not.
+	explainedBy int
+	// notReading: transports the client stopped reading (judged after the
+	// model, which may attribute it to a known deviation).
+	notReading []string
 }
 
 type dumpRec struct {
@@ -395,6 +401,13 @@ func runWX(e *core.Env, s *wxScenario, prop string) {
 	wd.checkWatchers()
 	wd.checkFallback()
 	wd.checkRelease()
+	for _, msg := range wd.notReading {
+		if wd.explainedBy&relaxInactiveFail != 0 {
+			e.Violate("fallback_on_inactive_server_failure", "consequence: a server that is not the active one was left open (fallback was triggered by a failure of a server that was not in use) and its update was ignored without releasing flow control: %s", msg)
+			continue
+		}
+		e.Violate("reading_resumes", "%s", msg)
+	}
 }
 
 func (wd *world) takeDump(c *xdsclient.XDSClient) {
